@@ -11,6 +11,17 @@ Theorem C08_wire_is_what_was_sent : forall unicode L T ops,
 Proof. exact wire_is_what_was_sent. Qed.
 Print Assumptions C08_wire_is_what_was_sent.
 
+(** the write loop behind send(): whatever part of the payload each write call accepts (or refuses for the moment, on a
+    descriptor that asyncio has made non-blocking), the pieces that reach the descriptor are, in order, the payload;
+    nothing is dropped, and with a descriptor that keeps accepting something everything is written *)
+Theorem C08_write_loop_conserves : forall accepts b, let '(ps, lft) := write_all accepts b in concat ps ++ lft = b.
+Proof. exact write_all_conserves. Qed.
+Print Assumptions C08_write_loop_conserves.
+Theorem C08_write_loop_completes : forall accepts b,
+  length b <= length (filter (fun a => match a with Some (S _) => true | _ => false end) accepts) -> snd (write_all accepts b) = [].
+Proof. exact write_all_completes. Qed.
+Print Assumptions C08_write_loop_completes.
+
 Example C08_example :
   let o := snd (run false {| has_all := false; has_read := false; has_send := false |} TPty
                   [Send true [233]%N; SendLine false [255]%N; Control 3%N]) in
